@@ -206,12 +206,27 @@ func (m *Mask) maskValue(value, buf []byte) ([]byte, bool) {
 	buf = buf[:0]
 
 	prevFinish := 0
-	curStart, curFinish := 0, 0
+	ranges := make([][2]int, 0, len(m.Groups))
 	for _, index := range indexes {
+		// collect the selected groups that took part in the match
+		// and order them by position: groups may be listed in any order
+		ranges = ranges[:0]
 		for _, grp := range m.Groups {
-			curStart = index[grp*2]
-			curFinish = index[grp*2+1]
+			curStart, curFinish := index[grp*2], index[grp*2+1]
 			if curStart < 0 || curFinish < 0 { // invalid idx check
+				continue
+			}
+			ranges = append(ranges, [2]int{curStart, curFinish})
+			for i := len(ranges) - 1; i > 0 && (ranges[i][0] < ranges[i-1][0] ||
+				(ranges[i][0] == ranges[i-1][0] && ranges[i][1] > ranges[i-1][1])); i-- {
+				ranges[i], ranges[i-1] = ranges[i-1], ranges[i]
+			}
+		}
+
+		for _, r := range ranges {
+			curStart, curFinish := r[0], r[1]
+			if curStart < prevFinish {
+				// nested in the group that has just been masked
 				continue
 			}
 
@@ -227,5 +242,5 @@ func (m *Mask) maskValue(value, buf []byte) ([]byte, bool) {
 		}
 	}
 
-	return append(buf, value[curFinish:]...), true
+	return append(buf, value[prevFinish:]...), true
 }
